@@ -609,6 +609,33 @@ func (x *c08exec) run(worker int, seed *c08seedDoc, m jmut) {
 			}
 		}
 	}
+	// object history: the decoded objects are verified under their own keys first (which fills whatever the proofs
+	// memoise) and then again under keys without revocation parts, and under the keys in reverse order
+	{
+		var h gabi.ProofList
+		if json.Unmarshal(m.doc, &h) == nil && len(h) > 0 {
+			_, pv0, _ := verifyList(h, keysFor(len(h), false), seed.ctx, seed.nonce, false, nil)
+			if pv0 == nil {
+				ok, pv, stack := verifyList(h, keysFor(len(h), true), seed.ctx, seed.nonce, false, nil)
+				r.Eval(fam+"/reused-objects", outcome(ok, pv))
+				if pv != nil {
+					report("ProofList.Verify(keys without revocation parts, objects verified before under their own keys)", pv, stack)
+				}
+				if ok && bytes.Contains(m.doc, []byte("nonrev_proof")) {
+					r.Violation("C08/malformed-accepted/M3/nonrev-under-key-without-revocation", "list with a non-revocation proof accepted under a key without revocation parts after it was verified under its own key ("+seed.name+", "+m.desc+")",
+						map[string]any{"seed": seed.name, "mutation": m.desc, "document": json.RawMessage(safeRaw(m.doc))})
+				}
+				rev := keysFor(len(h), false)
+				for i, j := 0, len(rev)-1; i < j; i, j = i+1, j-1 {
+					rev[i], rev[j] = rev[j], rev[i]
+				}
+				_, pv, stack = verifyList(h, rev, seed.ctx, seed.nonce, false, nil)
+				if pv != nil {
+					report("ProofList.Verify(keys reversed, objects verified before)", pv, stack)
+				}
+			}
+		}
+	}
 	// members on their own entry points
 	var members gabi.ProofList
 	_ = json.Unmarshal(m.doc, &members)
